@@ -1,11 +1,15 @@
 """C01 - dictable behaves as a rectangular list of records under any operation history.
 
-S2C: TLC explores the session state machine spec/Dictable.tla (exhaustively to depth 2, by simulation to
+S2C: TLC explores the session state machine spec/Dictable.tla (exhaustively to depth 2, the directed form "a table,
+a table made from it, then one of the two changed in place or grown by +=" exhaustively, by simulation to
 depth 6 / 10) with the call history as a variable and prints, for every behaviour, the history and the
 abstract state it must lead to.  Each history is replayed on real dictables through the public API and the
 state is projected through four independent observation channels (column lists, len/shape, iteration,
-d[i][c]); everything must equal the printed expectation, aliasing included."""
+d[i][c]); everything must equal the printed expectation, aliasing included.
+C2S: random recorded histories (general slices, masks, values, += / -= forms, per-column transforms with lists of
+functions that take further columns) validated step by step by spec/Trace_Dictable.tla."""
 import json
+import copy as pycopy
 from harness.enc import IdMap, tag, untag
 from pyg_base import dictable
 
@@ -59,11 +63,18 @@ def step(regs, h, ids, k):
             regs[h['r']] += (rec if k % 2 else [rec]); return 'ok'
         if op == 'IAddNone':
             regs[h['r']] += (None if k % 2 else 0); return 'ok'
+        if op == 'ISub':
+            regs[h['r']] -= (h['cs'][0] if (len(h['cs']) == 1 and k % 2) else list(h['cs'])); return 'ok'
         d = regs[h['r']]
         if op == 'SetCol':
             v = arg(h['arg'], ids)
             if k % 2: d[h['c']] = v
             else: setattr(d, h['c'], v)
+            return 'ok'
+        if op == 'SetFrom':                    # the column object of another table, handed over as it is
+            v = regs[h['r2']][h['c2']]
+            if k % 2: d[h['c']] = v
+            else: d.update({h['c']: v})
             return 'ok'
         if op == 'DelCol':
             if k % 2: del d[h['c']]
@@ -99,7 +110,7 @@ def step(regs, h, ids, k):
         elif op == 'AddRecord':
             res = d + {c: untag(v, ids) for c, v in h['rec']}
         elif op == 'Copy':
-            res = d.copy()
+            res = [d.copy(), dictable(d), pycopy.copy(d), dictable(**dict(d)) if len(d.keys()) else dictable(data=d)][k % 4]
         elif op == 'NoFilter':
             res = [d.inc(), d.exc(), d.inc({}), d.inc(**{})][(k + (h.get('f') == 'exc')) % 4] if 'f' not in h else (d.inc() if h['f'] == 'inc' else d.exc())
         elif op == 'AddNone':
@@ -215,8 +226,8 @@ def rand_event(rng, regs):
     cols = list(dict.keys(d))
     rd = rng.choice(['r1', 'r2', 'r3'])
     op = rng.choice(['SetCol', 'SetCol', 'DelCol', 'Update', 'Slice', 'Slice', 'Mask', 'Take', 'Project', 'Derive', 'Do', 'Do', 'Rename', 'Swap', 'Concat', 'AddRecord', 'Copy', 'NoFilter', 'AddNone', 'ConcatOne',
-                     'IAdd', 'IAddRecord', 'IAddRecord', 'IAddNone', 'Minus', 'DeriveConst', 'DerivePair'])
-    if op in ('IAdd', 'IAddRecord') and sum(1 for s in live if regs[s] is d) > 1:
+                     'IAdd', 'IAddRecord', 'IAddRecord', 'IAddNone', 'ISub', 'SetFrom', 'Minus', 'DeriveConst', 'DerivePair'])
+    if op in ('IAdd', 'IAddRecord', 'ISub') and sum(1 for s in live if regs[s] is d) > 1:
         op = 'Copy'          # += on a table that a second name holds too is not pinned down by the statement (see SoleName in the spec)
     def colarg():
         q = rng.random()
@@ -272,6 +283,11 @@ def rand_event(rng, regs):
         return {'op': op, 'r': r, 'rd': r, 'rec': [[c, val()] for c in rng.sample(COLS, rng.choice([1, 2, 3]))]}
     if op == 'IAddNone':
         return {'op': op, 'r': r, 'rd': r}
+    if op == 'ISub':
+        return {'op': op, 'r': r, 'rd': r, 'cs': rng.sample(COLS, rng.choice([1, 1, 2]))}
+    if op == 'SetFrom':
+        r2 = rng.choice(live); cols2 = list(dict.keys(regs[r2]))
+        return {'op': op, 'r': r, 'c': rng.choice(COLS), 'r2': r2, 'c2': rng.choice(cols2 + ['e'] if cols2 and rng.random() < 0.9 else COLS)}
     if op == 'Rename':
         if not cols: return {'op': 'Copy', 'r': r, 'rd': rd}
         fresh = [x for x in ('d', 'z', 'y') if x not in cols]
@@ -338,7 +354,7 @@ def run(ctx):
         check(ctx, s, 'exhaustive-depth-2')
     ctx.sample({'history': snaps[len(snaps) // 2]['hist'], 'expected_state': snaps[len(snaps) // 2]['regs']})
     # directed form: New ; any call that makes a table from it ; any in-place change / += on either of them - the ORIGINAL is observed too
-    snaps = ctx.generate('Dictable', 'Dictable_gen3d.cfg')
+    snaps = ctx.generate('Dictable', 'Dictable_gen3d.cfg' if ctx.quick else 'Dictable_gen3dall.cfg')     # quick: from 3 seed tables, thorough: from all 12
     for s in snaps:
         check(ctx, s, 'derived-then-changed')
     pick = [s for s in snaps if s['hist'][-1]['op'].startswith('IAdd')]
